@@ -223,7 +223,7 @@ def _cli_chunk(args):
             # reference: the same inputs through transform + imain in-process (bypasses TelApp.main / print_model)
             imin = int([o for o in opts if o.startswith("--imin=")][0].split("=")[1])
             imax = int([o for o in opts if o.startswith("--imax=")][0].split("=")[1])
-            ref = oracles.impl_models(files, imax, imin=imin, imax=imax)
+            ref = oracles.impl_models(files, imax, imin=imin, imax=imax, solver_opts=[])     # the command line runs clasp with its defaults: so does the reference
             if ref[0] == "err":
                 if rc1 in (65, 1, 33) or "ERROR" in err1:
                     continue  # both reject the program
